@@ -752,8 +752,14 @@ func newIndex(vals []reflect.Value, c ReflectListComparator) *index {
 }
 
 func reflectCompare(a, b reflect.Value) bool {
+	if a.Kind() == reflect.Interface {
+		a, b = a.Elem(), b.Elem()
+	}
 	if a.CanInt() {
 		return a.Int() < b.Int()
+	}
+	if a.CanUint() {
+		return a.Uint() < b.Uint()
 	}
 	if a.CanFloat() {
 		return a.Float() < b.Float()
@@ -761,7 +767,11 @@ func reflectCompare(a, b reflect.Value) bool {
 	if a.Kind() == reflect.String {
 		return a.String() < b.String()
 	}
-	panic(fmt.Sprintf("cannot compare %s. you must set comparator or implement your own list handler", a.Type()))
+	if a.Kind() == reflect.Bool {
+		return !a.Bool() && b.Bool()
+	}
+	// any other key type (enum, identityref, ...) : a stable order by text form
+	return fmt.Sprint(a.Interface()) < fmt.Sprint(b.Interface())
 }
 
 func (ndx *index) Len() int {
